@@ -14,13 +14,20 @@ namespace ClientK1
     error return of the processor (defect 15) -/
 def FixOK (fx : Fix) : Prop := fx.f14 = true ∧ fx.f15 = true
 
-/-- the id the session hands out is not in the future store and is not the id whose
-    acknowledgement the processor is finishing right now (fewer than 65535 requests in flight) -/
+/-- the id `Client.nextID` settles on is not in the *future* store and is not the id whose
+    acknowledgement the processor is finishing right now (fewer than 65535 requests in flight).
+    `Client.nextID` guarantees that no *packet* is stored under the id (`C09.fresh_id_unused`); the
+    future store is a different object (SUBSCRIBE / UNSUBSCRIBE are never stored in the session, and
+    the acknowledgement handlers read and delete their future-store entry in two separate steps),
+    so this remains a hypothesis -/
 def FreshAt (s : St) (id : UInt16) : Prop := s.storeGet id = none ∧ ∀ k h, s.proc ≠ .aFin k id h
 
-/-- side conditions on the steps of a run: one client lifetime, no keep-alive, fresh ids -/
+/-- side conditions on the steps of a run: one client lifetime, no keep-alive, fresh ids (required
+    only of the id the allocation ends with — the lookup that finds nothing —, not of the ids it
+    steps over) -/
 def Well (s : St) (l : Label) : Prop :=
-  l ≠ .newClient ∧ (∀ cp e v, l ≠ .aConnect cp e v true) ∧ (∀ id, l = .sNextID id → FreshAt s id)
+  l ≠ .newClient ∧ (∀ cp e v, l ≠ .aConnect cp e v true) ∧
+    (∀ id, l = .sLookup .outgoing id (.found none) → FreshAt s id)
 
 /-- reachable within one client lifetime, starting with an arbitrary session -/
 inductive Reach1 (fx : Fix) : St → Prop where
@@ -37,7 +44,9 @@ theorem reach1_inv {fx} (P : St → Prop) (h0 : ∀ σ, P { sess := σ })
   | step l hr hst hw ih => exact hs _ _ l hr ih hst hw
 
 theorem threadOf_none {l : Label} (h : threadOf l = none) : l = .newClient := by
-  cases l <;> simp [threadOf] at h ⊢
+  cases l with
+  | sLookup d _ _ => cases d <;> simp [threadOf] at h
+  | _ => simp [threadOf] at h ⊢
 
 /-- the fourth branch of `step` is excluded by `Well` -/
 theorem not_newClient_branch {s : St} {l : Label} (hw : Well s l) (h : threadOf l = none) : False :=
@@ -267,10 +276,11 @@ theorem ownY_stepProc {fx s s' l} (hi : ∀ id, procHandles s.proc id → id ≠
     | (simp at hs; subst hs; simp at hp; obtain ⟨_, rfl⟩ := hp; exact hi _ ⟨_, by simp_all⟩)
     | skip)
 
-/-- `Put` is reached either with an id fresh from the session or, for QoS 0, with id 0 -/
+/-- `Put` is reached either with the id `Client.nextID` ended with (its lookup found no stored
+    packet) or, for QoS 0, with id 0 -/
 theorem stepApi_enter_rPut {fx s s' l r id} (hs : stepApi fx s l = some s') (hp : s'.api = .rPut r id) :
     s'.fstore = s.fstore ∧ s'.proc = s.proc ∧
-      ((s.api = .rID r ∧ l = .sNextID id) ∨ (s.api = .rChk r ∧ id = 0)) := by
+      ((∃ n, s.api = .rLook r id n ∧ l = .sLookup .outgoing id (.found none)) ∨ (s.api = .rChk r ∧ id = 0)) := by
   unfold stepApi at hs
   split_all hs
   all_goals (first
@@ -300,31 +310,37 @@ def apiReq : Api → Option (Req × UInt16)
 
 /-- requests that need an id never run under id 0, the others always do -/
 def IdZ (s : St) : Prop :=
-  (∀ r id, apiReq s.api = some (r, id) → (id = 0 ↔ r.needsID = false)) ∧ (∀ r, s.api = .rID r → r.needsID = true)
+  (∀ r id, apiReq s.api = some (r, id) → (id = 0 ↔ r.needsID = false)) ∧ (∀ r n, s.api = .rID r n → r.needsID = true) ∧
+    (∀ r id n, s.api = .rLook r id n → r.needsID = true ∧ id ≠ 0)
 
 theorem sess_nextID_ne_zero (σ : MemorySession) : σ.nextID.1 ≠ 0 := by
   have := C18.nextID_ne_zero σ.counter
   simpa [MemorySession.nextID] using this
 
 theorem idZ_stepApi {fx s s' l} (hi : IdZ s) (hs : stepApi fx s l = some s') : IdZ s' := by
-  obtain ⟨h1, h2⟩ := hi
+  obtain ⟨h1, h2, h3⟩ := hi
   unfold stepApi at hs
   split_all hs
   all_goals (first
     | (simp at hs; done)
-    | (simp at hs; subst hs; refine ⟨fun r id hp => ?_, fun r hp => ?_⟩ <;> simp [apiReq, apiFail] at hp; done)
+    | (simp at hs; subst hs; refine ⟨fun r id hp => ?_, fun r n hp => ?_, fun r id n hp => ?_⟩ <;> simp [apiReq, apiFail] at hp; done)
     | skip)
   all_goals (
     simp at hs; subst hs
-    refine ⟨fun r id hp => ?_, fun r hp => ?_⟩
+    refine ⟨fun r id hp => ?_, fun r n hp => ?_, fun r id n hp => ?_⟩
     · (simp [apiReq] at hp) <;> first
         | (obtain ⟨rfl, rfl⟩ := hp; apply h1; simp [apiReq, *]; done)
-        | (obtain ⟨rfl, rfl⟩ := hp; have hn := h2 _ ‹_›; simp_all [sess_nextID_ne_zero]; done)
+        | (obtain ⟨rfl, rfl⟩ := hp; have hn := h3 _ _ _ ‹_›; simp_all; done)
         | (obtain ⟨rfl, rfl⟩ := hp; simp_all; done)
         | (simp_all; done)
     · first
         | (simp at hp; done)
+        | (simp at hp; obtain ⟨rfl, rfl⟩ := hp; have hn := h3 _ _ _ ‹_›; simp_all; done)
         | (simp at hp; subst hp; simp_all; done)
+        | (simp_all; done)
+    · first
+        | (simp at hp; done)
+        | (simp at hp; obtain ⟨rfl, rfl, rfl⟩ := hp; have hn := h2 _ _ ‹_›; simp_all [sess_nextID_ne_zero]; done)
         | (simp_all; done))
 
 /-- id 0 (QoS 0 publishes) is in the store only while the exported method that put it is at work -/
@@ -333,7 +349,7 @@ def OwnZ (s : St) : Prop :=
 
 theorem ownZ_stepApi {fx s s' l} (hi : OwnZ s) (hz : IdZ s) (hs : stepApi fx s l = some s') : OwnZ s' := by
   intro h hg
-  obtain ⟨hz1, hz2⟩ := hz
+  obtain ⟨hz1, hz2, _⟩ := hz
   unfold OwnZ apiHolds at *
   unfold stepApi at hs
   split_all hs
@@ -395,7 +411,7 @@ theorem own_stepApi {fx s s' l} (hi : Own s) (hs : stepApi fx s l = some s') (hw
   · intro r id hp
     obtain ⟨hf, hpr, hc⟩ := stepApi_enter_rPut hs hp
     rw [hf, hpr]
-    rcases hc with ⟨_, rfl⟩ | ⟨ha, rfl⟩
+    rcases hc with ⟨_, _, rfl⟩ | ⟨ha, rfl⟩
     · have := hw.2.2 id rfl
       exact ⟨by rw [← storeGet_eq]; exact this.1, this.2⟩
     · constructor
